@@ -8,6 +8,7 @@ import (
 	"io/fs"
 	"os"
 	"os/exec"
+	pathpkg "path"
 	"path/filepath"
 	"regexp"
 	"sort"
@@ -217,6 +218,26 @@ func c17Gen(rng *gen.Rng, population string) *c17Hist {
 	files := map[string]bool{}
 	dirs := map[string]bool{"sub": true}
 	h.Ops = append(h.Ops, c17Op{Kind: "ext-mkdir", Path: "sub"})
+	// some files exist before the first script starts, created by something else than write()
+	if rng.Chance(30) {
+		for k := rng.Range(1, 2); k > 0; k-- {
+			p := rng.Pick(paths)
+			if files[p] || strings.HasPrefix(p, "sub/") && false {
+				continue
+			}
+			c := content()
+			switch rng.Intn(4) {
+			case 0:
+				c += "\n"
+			case 1:
+				c += "\n" + content()
+			case 2:
+				c += "\n" + content() + "\n\n"
+			}
+			h.Ops = append(h.Ops, c17Op{Kind: "ext-create", Path: p, Content: c})
+			files[p] = true
+		}
+	}
 	n := rng.Range(1, 25)
 	cuts := rng.Intn(3)
 	burst := 0
@@ -272,7 +293,7 @@ func c17Gen(rng *gen.Rng, population string) *c17Hist {
 		case k < 90:
 			q := p
 			if rng.Chance(25) {
-				q = rng.Pick([]string{"sub", "absent.txt", "sub/none", "nothing here"})
+				q = rng.Pick([]string{"sub", "sub/", "sub/.", "absent.txt", "sub/none", "nothing here", "absent/", "."})
 				if population == "base" && strings.Contains(q, " ") {
 					q = "absent.txt"
 				}
@@ -615,9 +636,12 @@ func (h *c17Hist) render(seed uint64) []*c17Segment {
 				fmt.Fprintf(&sb, "%s := %s\nee%d := exists(%s)\n", pn, pe, id, pn)
 			}
 			fmt.Fprintf(&sb, "print(\"<<X%d>>\", ee%d, \"<<E%d>>\")\n", id, id, id)
-			_, isF := m.Files[op.Path]
+			q := op.Path
+			needDir := strings.HasSuffix(q, "/") || strings.HasSuffix(q, "/.")
+			q = pathpkg.Clean(q)
+			_, isF := m.Files[q]
 			want := "0"
-			if isF || m.Dirs[op.Path] {
+			if q == "." || m.Dirs[q] || (isF && !needDir) {
 				want = "1"
 			}
 			cur.Expect = append(cur.Expect, c17Expect{ID: id, Kind: "exists", Want: want, Op: op})
